@@ -81,7 +81,8 @@ const char * kind_name(Kind k)
 bool entry_domain(const std::string & n, Domain & d)
   {
   static const std::set<std::string> none = { "limits_max", "limits_lowest", "limits_nan", "limits_one", "const_phi", "const_pidiv2", "sqrt_constexpr_available", "cplusplus" };
-  static const std::set<std::string> unary_fix = { "neg", "abs", "isnan", "ceil", "floor", "sqrt", "sqrt_abacus", "sqrt_std_math", "sin", "cos", "tan", "atan", "asin", "acos", "sqrt_aprox", "atan_index_aprox", "atan_aprox", "ostream", "rt_f64", "rt_f32" };
+  static const std::set<std::string> unary_fix = { "neg", "abs", "isnan", "ceil", "floor", "sqrt", "sqrt_abacus", "sqrt_std_math", "sin", "cos", "tan", "atan", "asin", "acos", "sqrt_aprox", "atan_index_aprox", "atan_aprox", "ostream", "rt_f64", "rt_f32",
+    "addeq_self", "subeq_self", "muleq_self", "diveq_self", "addeq_ref_self", "subeq_ref_self", "muleq_ref_self", "diveq_ref_self" };
   static const std::set<std::string> binary_fix = { "cmp_lt", "cmp_le", "cmp_gt", "cmp_ge", "cmp_eq", "cmp_ne", "and_", "hypot", "atan2", "hypot_aprox", "add_sub_back", "sub_add_back", "add_isnan", "sub_isnan", "add_isnan_pp", "sub_isnan_np" };
   if(none.count(n)) { d = { K_NONE, K_NONE }; return true; }
   if(unary_fix.count(n)) { d = { K_FIX, K_NONE }; return true; }
@@ -94,7 +95,7 @@ bool entry_domain(const std::string & n, Domain & d)
   if(n == "udl_int") { d = { K_U64, K_NONE }; return true; }
   if(n == "udl_float") { d = { K_F64, K_NONE }; return true; }
   if(ends(n, "_ff") || starts(n, "add_g") || starts(n, "sub_g") || starts(n, "addeq_g") || starts(n, "subeq_g")) { d = { K_FIX, K_FIX }; return true; }
-  for(const char * p : { "add_c_", "add_cl_", "sub_c_", "sub_cl_", "addeq_c_", "subeq_c_" }) if(starts(n, p)) { d = { K_FIX, K_NONE }; return true; }
+  for(const char * p : { "add_c_", "add_cl_", "sub_c_", "sub_cl_", "addeq_c_", "subeq_c_", "mul_k_", "kmul_", "muleq_k_", "div_k_", "diveq_k_" }) if(starts(n, p)) { d = { K_FIX, K_NONE }; return true; }
   // T -> fixed
   for(const char * p : { "ctor_", "a2f_", "mkf_", "i2f_", "fp2f_", "a2r_", "sin_angle_", "cos_angle_", "tan_angle_" })
     if(starts(n, p)) { Kind k = kind_of_tag(n.substr(strlen(p))); if(k == K_NONE) return false; d = { k, K_NONE }; return true; }
@@ -156,7 +157,10 @@ int64_t random_of_kind(Rng & r, Kind k)
   switch(k)
     {
     case K_NONE: return 0;
-    case K_FIX: switch(r.below(8)) { case 0: { int64_t v = (int64_t)r.next(); return v == INT64_MIN ? 0 : v; } case 1: return (r.next() & 1) ? RAW_NAN : RAW_NNAN; default: return (r.next() & 1) ? r.logu() : r.finite(); }
+    case K_FIX: switch(r.below(10)) {
+      case 8: { int sh = (int)r.below(39); int64_t x = (int64_t)((((r.next() & 0xffffff) | 0x800000) << 1 | 1)) << sh; x += r.range(-1, 1); return (r.next() & 1) ? -x : x; } // float rounding ties +-1
+      case 9: { int sh = (int)r.below(10); int64_t x = (int64_t)((((r.next() & 0xfffffffffffffull) | 0x10000000000000ull) << 1 | 1)) << sh; x += r.range(-1, 1); if(!model_finite(x)) x = RAW_MAX; return (r.next() & 1) ? -x : x; } // double rounding ties +-1
+      case 0: { int64_t v = (int64_t)r.next(); return v == INT64_MIN ? 0 : v; } case 1: return (r.next() & 1) ? RAW_NAN : RAW_NNAN; default: return (r.next() & 1) ? r.logu() : r.finite(); }
     case K_SHIFT: return r.below(4) == 0 ? r.range(INT32_MIN, -1) : r.range(0, 63);
     case K_ANGLE: return r.below(2) ? r.range(INT32_MIN, INT32_MAX) : r.range(-100000, 100000);
     case K_IDX361: return r.range(0, 360);
